@@ -613,6 +613,27 @@ func TestExh_C10(t *testing.T) {
 			}
 		}
 	}
+	// directed: thousands of frames for ids that are not open at the receiver, beside a conversation
+	// on an open id in both directions, which must stay complete and in order
+	for side := 0; side < 2; side++ {
+		conv := make([]int, 40)
+		for i := range conv {
+			conv[i] = 3 + i%23
+		}
+		c := C10Case{QLen: 8, IDs: []uint32{21},
+			Streams: []C10Stream{{Conn: 0, Dir: 0, Writers: [][]int{conv}, LagEvery: 3, LagUs: 100}, {Conn: 0, Dir: 1, Writers: [][]int{conv}, LagEvery: 2, LagUs: 100}},
+			Ghosts:  []C10Ghost{{Dir: side, Sizes: []int{1, 0, 9, 40}, Repeat: 700}, {Dir: side, Closed: true, Sizes: []int{5}, Repeat: 300}}}
+		raw := ev.Snapshot(c)
+		rec.Journal(raw)
+		o := runC10(c)
+		rec.ClearJournal()
+		rec.Record(raw, o)
+		n++
+		if o.Fail != "" {
+			exhFailed.Store(true)
+			t.Fatalf("C10 (many frames for unopened ids): %s\ncase: %s", o.Fail, raw)
+		}
+	}
 	// two directed cases with a stall of 2.6 s inside one frame (between header and payload, and
 	// in the middle of a 64k payload), run side by side: nothing is lost, so everything has to
 	// arrive and nothing may fail, however long the sender takes for a frame
